@@ -51,6 +51,19 @@ var dialect = "micro"
 var prefix = "g_"
 
 func goType(e ast.Expr) string {
+	if dialect == "stream" {
+		switch src(e) {
+		case "int":
+			return "Z"
+		case "*StreamOfStates":
+			return "stream"
+		case "[]*State":
+			return "states"
+		case "*State":
+			return "mstate?"
+		}
+		fail("type outside the subset: %s", src(e))
+	}
 	if dialect == "gomini" {
 		switch src(e) {
 		case "any":
@@ -106,6 +119,14 @@ func coqType(t string) string {
 		return "(option gsub)"
 	case "kind":
 		return "kind"
+	case "Z":
+		return "Z"
+	case "stream":
+		return "stream"
+	case "states":
+		return "(list state)"
+	case "mstate?":
+		return "(option state)"
 	}
 	if strings.HasPrefix(t, "(") { // tuple "(a,b)"
 		parts := strings.Split(t[1:len(t)-1], ",")
@@ -235,6 +256,10 @@ func (c *ctx) expr(e ast.Expr, want string) ex {
 				return ex{"TNil", true, "sexpr"}
 			case "state?":
 				return ex{"None", true, "state?"}
+			case "states":
+				return ex{"[]", true, "states"}
+			case "stream":
+				return ex{"SNil", true, "stream"}
 			}
 			fail("%s: nil of unknown type (%q)", c.f.name, want)
 		case "true", "false":
@@ -247,6 +272,9 @@ func (c *ctx) expr(e ast.Expr, want string) ex {
 		return ex{c.name(e.Name), true, t}
 	case *ast.BasicLit:
 		if e.Kind == token.INT {
+			if want == "Z" {
+				return ex{"(" + e.Value + ")%Z", true, "Z"}
+			}
 			return ex{e.Value + "%nat", true, "nat"}
 		}
 	case *ast.UnaryExpr:
@@ -323,6 +351,10 @@ func (c *ctx) expr(e ast.Expr, want string) ex {
 					return c.seq([]ex{a}, func(n []string) ex { return ex{wrap("subst_is_nil " + n[0]), true, "bool"} })
 				case "sexpr":
 					return c.seq([]ex{a}, func(n []string) ex { return ex{wrap("term_is_nil " + n[0]), true, "bool"} })
+				case "stream":
+					return c.seq([]ex{a}, func(n []string) ex { return ex{wrap("stream_is_nil " + n[0]), true, "bool"} })
+				case "mstate?":
+					return c.seq([]ex{a}, func(n []string) ex { return ex{wrap("opt_is_none " + n[0]), true, "bool"} })
 				}
 				fail("%s: == nil on %s", c.f.name, a.ty)
 			}
@@ -341,11 +373,24 @@ func (c *ctx) expr(e ast.Expr, want string) ex {
 				eq = "Bool.eqb"
 			case "kind":
 				eq = "kind_eqb"
+			case "Z":
+				eq = "Z.eqb"
 			default:
 				fail("%s: == on %s", c.f.name, a.ty)
 			}
 			return c.seq([]ex{a, b}, func(n []string) ex { return ex{wrap(eq + " " + n[0] + " " + n[1]), true, "bool"} })
-		case token.ADD:
+		case token.ADD, token.SUB:
+			if a0 := c.expr(e.X, want); a0.ty == "Z" {
+				b0 := c.expr(e.Y, "Z")
+				if b0.ty != "Z" {
+					fail("%s: %s on Z and %s", c.f.name, e.Op, b0.ty)
+				}
+				op := map[token.Token]string{token.ADD: "+", token.SUB: "-"}[e.Op]
+				return c.seq([]ex{a0, b0}, func(n []string) ex { return ex{"(" + n[0] + " " + op + " " + n[1] + ")%Z", true, "Z"} })
+			}
+			if e.Op == token.SUB {
+				fail("%s: subtraction on a length", c.f.name)
+			}
 			a := c.expr(e.X, "nat")
 			b := c.expr(e.Y, "nat")
 			if a.ty != "nat" || b.ty != "nat" {
@@ -530,7 +575,33 @@ func (c *ctx) gominiCall(e *ast.CallExpr) (ex, bool) {
 	return ex{}, false
 }
 
+func (c *ctx) streamCall(e *ast.CallExpr) (ex, bool) {
+	// s.CarCdr()
+	if sel, ok := e.Fun.(*ast.SelectorExpr); ok && sel.Sel.Name == "CarCdr" && len(e.Args) == 0 {
+		x := c.expr(sel.X, "stream")
+		if x.ty == "stream" && x.pure {
+			return ex{"carcdr ds uf (" + x.code + ")", false, "(mstate?,stream)"}, true
+		}
+	}
+	// append([]*State{x}, ys...)
+	if id, ok := e.Fun.(*ast.Ident); ok && id.Name == "append" && len(e.Args) == 2 && e.Ellipsis.IsValid() {
+		if cl, ok := e.Args[0].(*ast.CompositeLit); ok && src(cl.Type) == "[]*State" && len(cl.Elts) == 1 {
+			x := c.expr(cl.Elts[0], "mstate?")
+			y := c.expr(e.Args[1], "states")
+			if x.ty == "mstate?" && y.ty == "states" && x.pure && y.pure {
+				return ex{"cons_opt (" + x.code + ") (" + y.code + ")", false, "states"}, true
+			}
+		}
+	}
+	return ex{}, false
+}
+
 func (c *ctx) call(e *ast.CallExpr) ex {
+	if dialect == "stream" {
+		if r, ok := c.streamCall(e); ok {
+			return r
+		}
+	}
 	if dialect == "gomini" {
 		if r, ok := c.gominiCall(e); ok {
 			return r
@@ -638,6 +709,9 @@ func (c *ctx) call(e *ast.CallExpr) ex {
 	code := prefix + g.name
 	if g.fuelled {
 		code += " " + c.fuel
+	}
+	if dialect == "stream" {
+		code += " ds uf"
 	}
 	code += " " + strings.Join(names, " ")
 	for i := len(args) - 1; i >= 0; i-- {
@@ -995,13 +1069,21 @@ func main() {
 		order = []string{"walk", "hasCycle", "isLeaf", "unify", "rewrite"}
 		os.Args = append(os.Args[:1], os.Args[2:]...)
 	}
+	if len(os.Args) == 4 && os.Args[1] == "-stream" {
+		dialect, prefix = "stream", "gs_"
+		order = []string{"takeStream"}
+		os.Args = append(os.Args[:1], os.Args[2:]...)
+	}
 	if len(os.Args) != 3 {
-		fail("usage: genmicro [-gomini] <repo> <outdir>")
+		fail("usage: genmicro [-gomini|-stream] <repo> <outdir>")
 	}
 	repo, outdir := os.Args[1], os.Args[2]
 	files := []string{"micro/walk.go", "micro/exts.go", "micro/unify.go", "micro/reify.go"}
 	if dialect == "gomini" {
 		files = []string{"gomini/unify.go"}
+	}
+	if dialect == "stream" {
+		files = []string{"micro/stream.go"}
 	}
 	for _, p := range files {
 		f, err := parser.ParseFile(fset, filepath.Join(repo, p), nil, 0)
@@ -1114,7 +1196,11 @@ func main() {
 	}
 
 	var sb strings.Builder
-	if dialect == "gomini" {
+	if dialect == "stream" {
+		sb.WriteString("(* GENERATED by harness/cmd/genmicro -stream from micro/stream.go - do not edit.\n")
+		sb.WriteString("   takeStream, statement by statement, in the result monad of GoLite.v over the stream model of Stream.v (CarCdr = GoLiteS.carcdr). *)\n")
+		sb.WriteString("From Coq Require Import List NArith ZArith Bool.\nFrom GMK Require Import Term Unify Goal Stream GoLite GoLiteS.\nImport ListNotations.\n\n")
+	} else if dialect == "gomini" {
 		sb.WriteString("(* GENERATED by harness/cmd/genmicro -gomini from gomini/unify.go - do not edit.\n")
 		sb.WriteString("   Each function is the Go function of the same name, statement by statement, in the result monad of GoLite.v over the\n   reflecttools value model (Reflect.v) with the primitives of GoLiteG.v. *)\n")
 		sb.WriteString("From Coq Require Import List NArith ZArith Bool.\nFrom GMK Require Import Term Reflect GCore GoLite GoLiteG.\nImport ListNotations.\n\n")
@@ -1133,6 +1219,9 @@ func main() {
 			ps = append(ps, fmt.Sprintf("(%s : %s)", varName(p[0]), coqType(p[1])))
 		}
 		sig := strings.Join(ps, " ")
+		if dialect == "stream" {
+			sig = "(ds : defs) (uf : term -> term -> subst -> nat) " + sig
+		}
 		rt := "R " + coqType(g.resType())
 		fmt.Fprintf(&sb, "(* %s *)\n", strings.ReplaceAll(strings.ReplaceAll(src(g.decl.Type), "(*", "( *"), "*)", "* )"))
 		switch {
@@ -1153,6 +1242,9 @@ func main() {
 	out := filepath.Join(outdir, "MicroGen.v")
 	if dialect == "gomini" {
 		out = filepath.Join(outdir, "GominiGen.v")
+	}
+	if dialect == "stream" {
+		out = filepath.Join(outdir, "StreamGen.v")
 	}
 	text := sb.String()
 	if old, err := os.ReadFile(out); err == nil && string(old) == text {
